@@ -1291,6 +1291,273 @@ def w_key_order(item, seed=0):
     return t
 
 
+# ----------------------------------------------------------------------------- (11) histories on ONE object
+# Alphabet of public operations; every history up to a depth is executed on a fresh object built WITH constructor
+# aberrations (defocus + astigmatism + angle) and judged after its last step (every prefix is itself enumerated).
+HIST_ABER = "defocus+astig"
+HIST_ROT = 0.3
+HIST_OPS = {
+    "R": "reconstruct() with the current state",
+    "RI": "reconstruct(use_initial_state=True)",
+    "RO": "reconstruct(override_aberration_coefs={'C10': 55, 'C12': -9}, override_rotation_angle=0.11)",
+    "GR": "grid_search_hyperparameters(rotation_angle=OptimizationParameter(0.0, 0.3, n_points=2))  [rotation only]",
+    "GA": "grid_search_hyperparameters(aberration_coefs={'C10': OptimizationParameter(-150, -90, n_points=2)})",
+    "OA": "optimize_hyperparameters(aberration_coefs={'C12': OptimizationParameter(40, 40)}, n_trials=1)",
+    "OR": "optimize_hyperparameters(rotation_angle=OptimizationParameter(0.2, 0.2), n_trials=1)  [rotation only]",
+    "CL": "hyperparameter_state.clear_optimized()",
+    "MA": "d = obj.aberration_coefs; d['C10'] = 999.0; d.clear()  [mutate the dictionary the accessor returned]",
+}
+HIST_FITS = {
+    "FX": "fit_hyperparameters_cross_correlation()",
+    "FL": "fit_hyperparameters_least_squares()",
+}
+# searches that start from the constructor state and must therefore end identically when repeated. Not FL:
+# fit_hyperparameters_least_squares takes the CURRENT (already optimized) state as its prior, i.e. a second call refines
+# the first by design (observed on the current tree: C10 83.9 -> 84.7).
+SEARCH_OPS = ("GR", "GA", "OA", "OR", "FX")
+
+
+def apply_op(dp, op, kw):
+    from quantem.diffractive_imaging.direct_ptychography import OptimizationParameter as OP
+
+    with warnings.catch_warnings():
+        warnings.simplefilter("ignore")
+        if op == "R":
+            dp.reconstruct(verbose=False, **kw)
+        elif op == "RI":
+            dp.reconstruct(verbose=False, use_initial_state=True, **kw)
+        elif op == "RO":
+            dp.reconstruct(verbose=False, override_aberration_coefs={"C10": 55.0, "C12": -9.0}, override_rotation_angle=0.11, **kw)
+        elif op == "GR":
+            dp.grid_search_hyperparameters(rotation_angle=OP(0.0, 0.3, n_points=2), verbose=False, **kw)
+        elif op == "GA":
+            dp.grid_search_hyperparameters(aberration_coefs={"C10": OP(-150.0, -90.0, n_points=2)}, verbose=False, **kw)
+        elif op == "OA":
+            dp.optimize_hyperparameters(aberration_coefs={"C12": OP(40.0, 40.0)}, n_trials=1, verbose=False, **kw)
+        elif op == "OR":
+            dp.optimize_hyperparameters(rotation_angle=OP(0.2, 0.2), n_trials=1, verbose=False, **kw)
+        elif op == "CL":
+            dp.hyperparameter_state.clear_optimized()
+        elif op == "MA":
+            d = dp.aberration_coefs
+            d["C10"] = 999.0
+            d.clear()
+        elif op == "FX":
+            dp.fit_hyperparameters_cross_correlation(verbose=False, **kw)
+        elif op == "FL":
+            dp.fit_hyperparameters_least_squares(verbose=False, **kw)
+        else:
+            raise ValueError(op)
+
+
+def _stack_of(dp):
+    return dp.corrected_stack.detach().cpu().numpy().copy()
+
+
+def _reported(dp):
+    return ({k: float(v) for k, v in dict(dp.aberration_coefs).items()}, float(dp.rotation_angle))
+
+
+_HIST_CACHE = {}
+
+
+def _hist_base(seed, kvi):
+    key = (seed, kvi)
+    if key not in _HIST_CACHE:
+        env = Env(SHAPES[1], "disc5", HIST_ABER, HIST_ROT, seed)
+        kv = KVARIANTS[kvi]
+        kw = _recon_kwargs(kv, 1, 2)
+        fresh = env.fresh()
+        apply_op(fresh, "R", kw)
+        _HIST_CACHE[key] = (env, kv, kw, _stack_of(fresh))
+    return _HIST_CACHE[key]
+
+
+def history_point(t, seed, kvi, hist):
+    env, kv, kw, ref_init = _hist_base(seed, kvi)
+    ctor = {k: float(v) for k, v in env.abers.items()}
+    case = {"kind": "history", "kernel": kv[0], "flip": kv[1], "history": list(hist)}
+    cls0 = {"kernel": kv[0]}
+    dp = env.fresh()
+    t.case(key=["history", case], nontrivial=True)
+    t.extra["histories"] += 1
+    done = []
+    try:
+        for op in hist:
+            apply_op(dp, op, kw)
+            done.append(op)
+    except Exception as ex:
+        t.fail({"relation": "history_operation_raised", "op": hist[len(done)], **cls0}, case, f"history {list(hist)}: operation {hist[len(done)]} ({({**HIST_OPS, **HIST_FITS})[hist[len(done)]]}) raised {type(ex).__name__}: {str(ex)[:200]} after {done}")
+        return
+    H = f"history {list(hist)} on one object built with {ctor}, rotation {HIST_ROT}, kernel {kv[0]}"
+    try:
+        # the constructor state is never changed by searches, fits, undo or reconstructions
+        st = dp.hyperparameter_state
+        ini = {k: float(v) for k, v in dict(st.initial_aberrations).items()}
+        if ini != ctor or float(st.initial_rotation_angle) != HIST_ROT:
+            t.fail({"relation": "constructor_state_unchanged_by_history", "judge": "accessor", **cls0}, case, f"{H}: hyperparameter_state reports initial_aberrations={ini}, initial_rotation_angle={st.initial_rotation_angle} instead of the constructor values")
+        apply_op(dp, "RI", kw)
+        e = relerr(_stack_of(dp), ref_init)
+        t.stat("history_initial_state_rel_err", e)
+        if not e <= TOL_OVERRIDE:
+            t.fail({"relation": "constructor_state_unchanged_by_history", "judge": "result", **cls0}, case, f"{H}: reconstruct(use_initial_state=True) differs from a fresh object built from the same inputs by {e:.3e} of max (tol {TOL_OVERRIDE})")
+        # the current-state reconstruction is the fresh-object result for the hyper-parameters the accessors report
+        ab, rot = _reported(dp)
+        apply_op(dp, "R", kw)
+        cur = _stack_of(dp)
+        twin = build(env.x, env.maskname, ab, rot, env.seed)
+        apply_op(twin, "R", kw)
+        e = relerr(cur, _stack_of(twin))
+        t.stat("history_reported_state_rel_err", e)
+        if not e <= TOL_OVERRIDE:
+            t.fail({"relation": "result_is_function_of_reported_hyperparameters", **cls0}, case, f"{H}: reconstruct() differs from a fresh object built with the reported aberration_coefs={ab}, rotation_angle={rot} by {e:.3e} of max")
+        # a repeated identical search ends identically
+        if hist[-1] in SEARCH_OPS:
+            apply_op(dp, hist[-1], kw)
+            ab2, rot2 = _reported(dp)
+            e = relerr(_stack_of(dp), cur)
+            t.stat("history_repeated_search_rel_err", e)
+            t.extra["histories_with_repeated_search"] += 1
+            if not (e <= TOL_OVERRIDE and ab2 == ab and rot2 == rot):
+                t.fail({"relation": "repeated_identical_search_identical_result", "op": hist[-1], **cls0}, case, f"{H}: repeating the last search {hist[-1]} ends with aberration_coefs={ab2}, rotation_angle={rot2} and a result differing by {e:.3e} of max; the first time it ended with {ab}, {rot}")
+        # undo: after clear_optimized the public accessors and the reconstruction are those of the constructor state
+        apply_op(dp, "CL", kw)
+        ab3, rot3 = _reported(dp)
+        apply_op(dp, "R", kw)
+        e = relerr(_stack_of(dp), ref_init)
+        t.stat("history_after_clear_rel_err", e)
+        if not (ab3 == ctor and rot3 == HIST_ROT and e <= TOL_OVERRIDE):
+            t.fail({"relation": "state_after_clear_optimized_equals_constructor_state", **cls0}, case, f"{H}, then clear_optimized(): accessors report aberration_coefs={ab3}, rotation_angle={rot3} (constructor: {ctor}, {HIST_ROT}); reconstruct() differs from the fresh object by {e:.3e} of max")
+    except Exception as ex:
+        t.fail({"relation": "history_operation_raised", "op": "probe", **cls0}, case, f"{H}: a probing operation raised {type(ex).__name__}: {str(ex)[:200]}")
+
+
+def w_history(item, seed=0):
+    kvi, hist = item
+    t = Tally()
+    history_point(t, seed, kvi, tuple(hist))
+    return t
+
+
+def all_histories(ops, depth):
+    out = []
+    for n in range(1, depth + 1):
+        out += list(itertools.product(ops, repeat=n))
+    return out
+
+
+# ----------------------------------------------------------------------------- (12) copies that are used further
+COPY_ROUTES = ["copy.copy", "copy.deepcopy", "pickle", "deepcopy_of_unpickled", "save_load_dir", "save_load_zip"]
+SHALLOW_ROUTES = ("copy.copy",)
+
+
+def make_copy(route, dp):
+    import copy
+    import os
+    import pickle
+    import tempfile
+
+    if route == "copy.copy":
+        return copy.copy(dp)
+    if route == "copy.deepcopy":
+        return copy.deepcopy(dp)
+    if route == "pickle":
+        return pickle.loads(pickle.dumps(dp))
+    if route == "deepcopy_of_unpickled":
+        return copy.deepcopy(pickle.loads(pickle.dumps(dp)))
+    from quantem.core.io.serialize import load
+
+    with tempfile.TemporaryDirectory(dir=os.environ.get("QUANTEM_VERIF_SCRATCH") or None) as d:
+        p = os.path.join(d, "dp" + (".zip" if route.endswith("zip") else ""))
+        with warnings.catch_warnings():
+            warnings.simplefilter("ignore")
+            import contextlib
+            import io
+
+            with contextlib.redirect_stdout(io.StringIO()):
+                dp.save(p)
+                return load(p)
+
+
+def copy_point(t, env, kv, up, route, used):
+    kw = _recon_kwargs(kv, up, None)
+    case = dict(env.point(kv, up, "none"), kind="copy", route=route, used=bool(used))
+    cls = {"route": route, "kernel": kv[0]}
+    orig = env.fresh()
+    try:
+        if used:
+            apply_op(orig, "R", kw)
+            apply_op(orig, "GA", kw)
+        ref = recon(orig, kv, up, "none", None, None)
+        ref_sub = recon(orig, kv, up, "none", env.arrays["cb1"], 2)
+        rep0 = _reported(orig)
+    except Exception as ex:
+        t.fail({"relation": "history_operation_raised", "op": "prepare_original", "kernel": kv[0]}, case, f"preparing the original raised {type(ex).__name__}: {str(ex)[:200]} at {case}")
+        return
+    try:
+        c = make_copy(route, orig)
+    except Exception as ex:
+        t.extra["copy_route_rejected__" + route] += 1
+        t.case(key=["copy_rejected", case], nontrivial=False)
+        t.sample({"rejected_copy_route": route, "exception": f"{type(ex).__name__}: {ex}"[:200]}, cap=1)
+        return
+    t.extra["copy_route_accepted__" + route] += 1
+    try:
+        got = recon(c, kv, up, "none", None, None)
+        e = max(relerr(got, ref), relerr(recon(c, kv, up, "none", env.arrays["cb1"], 2), ref_sub))
+        t.case(key=["copy", case], nontrivial=bool(np.any(ref != 0)), outcome=[round(float(np.abs(ref).max()), 7)])
+        t.stat("copy_rel_err", e)
+        if not e <= TOL_OVERRIDE:
+            t.fail({"relation": "copy_reconstructs_like_original", **cls}, case, f"{route} of a{'n already used' if used else ' freshly constructed'} object: reconstruction on the copy differs from the original's by {e:.3e} of max (tol {TOL_OVERRIDE}); mean of the copy's result {float(got.mean()):.3e} vs original {float(ref.mean()):.3e}, at {case}")
+        if tuple(kv) == ("prlx", False) and env.abername in ANALYTIC_ABERS and not used:
+            want = parallax_oracle(env.x, geometric_shifts(env.pix, env.abers, env.rot), env.W["full"], up)
+            e2 = relerr(got, want)
+            t.case(key=["copy_analytic", case], nontrivial=True)
+            t.stat("copy_analytic_rel_err", e2)
+            t.extra["copy_closed_form_points"] += 1
+            if not e2 <= TOL_ANALYTIC:
+                t.fail({"relation": "parallax_analytic_on_copy", "route": route}, case, f"{route}: parallax (no sign flipping) on the copy differs from the closed form by {e2:.3e} of max (tol {TOL_ANALYTIC}) at {case}")
+        # use both alternately: a search on one must not change the other
+        apply_op(c, "GA", kw)
+        after_c = recon(c, kv, up, "none", None, None)
+        rep_c = _reported(c)
+        now = recon(orig, kv, up, "none", None, None)
+        rep1 = _reported(orig)
+        if route in SHALLOW_ROUTES:
+            # a shallow copy shares its mutable members by definition: only counted, and the original must still be the
+            # fresh-object result for the hyper-parameters it now reports
+            if rep1 != rep0:
+                t.extra["shallow_copy_shares_hyperparameter_state"] += 1
+            twin = recon(build(env.x, env.maskname, rep1[0], rep1[1], env.seed), kv, up, "none", None, None)
+            e3 = relerr(now, twin)
+            if not e3 <= TOL_OVERRIDE:
+                t.fail({"relation": "result_is_function_of_reported_hyperparameters", "kernel": kv[0]}, case, f"after a search on its {route}, the original differs from a fresh object built with the hyper-parameters it reports ({rep1}) by {e3:.3e} at {case}")
+        else:
+            e3 = relerr(now, ref)
+            t.stat("copy_independence_rel_err", e3)
+            if not (e3 <= TOL_OVERRIDE and rep1 == rep0):
+                t.fail({"relation": "copy_and_original_independent", **cls}, case, f"a search on the {route} changed the original: it now reports {rep1} (before: {rep0}) and its reconstruction moved by {e3:.3e} of max, at {case}")
+            apply_op(orig, "OA", kw)
+            e4 = relerr(recon(c, kv, up, "none", None, None), after_c)
+            if not (e4 <= TOL_OVERRIDE and _reported(c) == rep_c):
+                t.fail({"relation": "copy_and_original_independent", **cls}, case, f"a search on the original changed its {route}: the copy now reports {_reported(c)} (before: {rep_c}), reconstruction moved by {e4:.3e}, at {case}")
+    except Exception as ex:
+        t.fail({"relation": "history_operation_raised", "op": "use_copy", "kernel": kv[0]}, case, f"using the {route} raised {type(ex).__name__}: {str(ex)[:200]} at {case}")
+
+
+def w_copies(item, seed=0):
+    abername, kvi, up = item
+    t = Tally()
+    env = Env(SHAPES[1], "disc5", abername, 0.3, seed)
+    for route in COPY_ROUTES:
+        if route.startswith("save_load") and kvi != 0:
+            continue  # the save / load route does not depend on the kernel and costs 0.3 s per attempt
+        for used in (False, True):
+            copy_point(t, env, KVARIANTS[kvi], up, route, used)
+    t.extra["copy_items"] += 1
+    return t
+
+
 # ----------------------------------------------------------------------------- driver
 def run(ctx):
     q = ctx.quick
@@ -1400,7 +1667,31 @@ def run(ctx):
     ctx.coverage["bounds"]["key_order_items"] = len(k_items)
     ctx.pmap(w_key_order, k_items, chunk=1, label="aberration key order", seed=ctx.seed)
 
+    # (11) histories on one object
+    if q:
+        h_items = [(kvi, h) for kvi in (0, 4) for h in all_histories(list(HIST_OPS), 3)]
+        h_bounds = {"kernels": ["ssb", "prlx (no flipping)"], "operations": list(HIST_OPS), "depth": 3}
+    else:
+        h_items = [(kvi, h) for kvi in (0, 4) for h in all_histories(list(HIST_OPS), 4)]
+        h_items += [(kvi, h) for kvi in (1, 2, 3, 5) for h in all_histories(list(HIST_OPS), 3)]
+        h_items += [(kvi, h) for kvi in (0, 4) for h in all_histories(list(HIST_OPS) + list(HIST_FITS), 3) if set(h) & set(HIST_FITS)]
+        h_bounds = {"kernels": "ssb and prlx (no flipping): depth 4, and depth 3 with the two fit_* operations added; obf, mf, prlx (flipping), icom: depth 3", "operations": list(HIST_OPS) + list(HIST_FITS), "depth": 4}
+    ctx.coverage["alphabet"]["history_operations"] = {**HIST_OPS, **HIST_FITS}
+    ctx.coverage["alphabet"]["history_object"] = {"scan_shape": list(SHAPES[1]), "mask": "disc5", "constructor_aberrations": ABERS[HIST_ABER], "rotation": HIST_ROT}
+    ctx.coverage["bounds"]["histories"] = dict(h_bounds, count=len(h_items))
+    ctx.pmap(w_history, h_items, chunk=24, label="histories on one object", seed=ctx.seed)
+
+    # (12) copies used further
+    c_items = list(itertools.product(["defocus+astig", "defocus+astig+coma+Cs"], range(len(KVARIANTS)), [1] if q else [1, 2]))
+    ctx.coverage["alphabet"]["copy_routes"] = COPY_ROUTES
+    ctx.coverage["bounds"]["copy_items"] = len(c_items)
+    ctx.pmap(w_copies, c_items, chunk=1, label="copies used further", seed=ctx.seed)
+
     ex = ctx.tally.extra
+    ctx.coverage["copy_routes_rejected"] = {k.split("__", 1)[1]: int(v) for k, v in sorted(ex.items()) if k.startswith("copy_route_rejected__")}
+    ctx.coverage["shallow_copy_shares_hyperparameter_state"] = int(ex.get("shallow_copy_shares_hyperparameter_state", 0))
+    if not ctx.tally.nfails and (ex.get("histories", 0) < 100 or not any(k.startswith("copy_route_accepted__") for k in ex)):
+        raise Broken("the history / copy families were not enumerated")
     winners = {}
     for k, v in sorted(ex.items()):
         if k.startswith("conflict_winner__"):
@@ -1444,6 +1735,18 @@ def replay(ctx, case):
         else:
             aber_one_dict(t, base, kv, case["up"], pair, case["where"], case["how"])
         print("  worst observed deviations at this point:", {k: f"{v:.3e}" for k, v in sorted(t.maxima.items())})
+        for f in t.fails:
+            ctx.fail(f["cls"], f["case"], f["msg"])
+        return
+    if kind == "history":
+        history_point(t, ctx.seed, KVARIANTS.index((case["kernel"], case["flip"])), tuple(case["history"]))
+        print("  worst observed deviations for this history:", {k: f"{v:.3e}" for k, v in sorted(t.maxima.items())})
+        for f in t.fails:
+            ctx.fail(f["cls"], f["case"], f["msg"])
+        return
+    if kind == "copy":
+        copy_point(t, Env(tuple(case["shape"]), case["mask"], case["aber"], case["rot"], ctx.seed), kv, case["up"], case["route"], case["used"])
+        print("  worst observed deviations for this copy:", {k: f"{v:.3e}" for k, v in sorted(t.maxima.items())})
         for f in t.fails:
             ctx.fail(f["cls"], f["case"], f["msg"])
         return
